@@ -187,18 +187,21 @@ func envelopeNodeCases(w *world) []Case {
 }
 
 // documentCases: one-node neighbourhood and truncations of the configuration / cache documents.
-func documentCases(w *world) []Case {
+func documentCases(w *world, thorough bool) []Case {
 	var out []Case
 	for _, kind := range []string{"oci-policy", "blob-policy", "signingkeys", "config", "crl-cache"} {
-		doc := w.docs[kind]
+		doc := w.Docs[kind]
 		for _, m := range append(nodeMutations(doc, ""), truncations(doc, "", 1)...) {
 			out = append(out, Case{Family: "json-node", Kind: kind, Label: m.Label, Class: m.Class, Input: m.Bytes})
+		}
+		if thorough {
+			out = append(out, byteNeighbourhood("document-byte-mutation", kind, doc)...)
 		}
 	}
 	// the DER of the cached base CRL, Hamming-1 + truncations, wrapped into the cache entry
 	der := w.Bases["crl-der"]
 	var cache map[string][]byte
-	_ = json.Unmarshal(w.docs["crl-cache"], &cache)
+	_ = json.Unmarshal(w.Docs["crl-cache"], &cache)
 	wrap := func(b []byte) []byte {
 		return mustJSON(map[string]any{"baseCRL": b, "deltaCRL": cache["deltaCRL"]})
 	}
@@ -218,10 +221,16 @@ func documentCases(w *world) []Case {
 // signature manifest and the legacy artifact manifest of an OCI layout.
 // consistent: the mutated manifest is stored under its own digest and index.json names it;
 // stale-digest: the mutated bytes sit at the path of the original digest.
-func layoutCases(w *world) []Case {
+func layoutCases(w *world, thorough bool) []Case {
 	var out []Case
 	for _, kind := range []string{"index.json", "signature-manifest", "legacy-artifact-manifest"} {
-		doc := w.docs[kind]
+		doc := w.Docs[kind]
+		if thorough {
+			for _, c := range byteNeighbourhood("oci-layout-byte-mutation", kind, doc) {
+				c.Variant = "consistent"
+				out = append(out, c)
+			}
+		}
 		for _, m := range append(nodeMutations(doc, ""), truncations(doc, "", 1)...) {
 			out = append(out, Case{Family: "oci-layout", Kind: kind, Label: m.Label, Class: m.Class, Input: m.Bytes, Variant: "consistent"})
 			if kind != "index.json" && m.Op != "trunc" {
@@ -248,6 +257,19 @@ func pluginCases(w *world, thorough bool) []Case {
 		doc = []byte(w.PluginOut["stderr"])
 		for _, m := range append(nodeMutations(doc, ""), truncations(doc, "", step)...) {
 			out = append(out, Case{Family: "plugin-output", Kind: cmd, Label: m.Label, Class: m.Class, Input: m.Bytes, Variant: "stderr", Entries: []string{"direct", "composite"}})
+		}
+	}
+	return out
+}
+
+// byteNeighbourhood: every byte x {^1, ^0x80, =0} of a document (truncations are part of the node families).
+func byteNeighbourhood(family, kind string, doc []byte) []Case {
+	var out []Case
+	for off := 0; off < len(doc); off++ {
+		for _, op := range byteOps {
+			if b, ok := applyByteOp(doc, op, off); ok {
+				out = append(out, Case{Family: family, Kind: kind, Label: fmt.Sprintf("%s[%d]%s", kind, off, op), Class: op, Input: b})
+			}
 		}
 	}
 	return out
